@@ -23,6 +23,25 @@ func TestDbg(t *testing.T) {
 			seed := tape.Mix(11, uint64(i))
 			r := sim.Exec(C13, "C13", "quick", seed, sim.Options{PanicIsViolation: true})
 			fmt.Printf("seed %d: evals=%d events=%d tape=%d viol=%v mach=%.300q\n   %s\n", i, r.Evals, len(r.Events), r.TapeLen, r.Violation != nil, r.Machinery, r.Events[0])
+			if os.Getenv("JSIM_DBG_DET") != "" {
+				r2 := sim.ExecTape(C13, "C13", "quick", seed, r.Tape, sim.Options{PanicIsViolation: true})
+				if r2.TraceHash != r.TraceHash {
+					fmt.Printf("   NONDETERMINISTIC seed %d\n", i)
+					for j := 0; j < len(r.Events) || j < len(r2.Events); j++ {
+						a, b := "", ""
+						if j < len(r.Events) {
+							a = r.Events[j]
+						}
+						if j < len(r2.Events) {
+							b = r2.Events[j]
+						}
+						if a != b {
+							fmt.Printf("   first diff at event %d:\n     A: %.1500s\n     B: %.1500s\n", j, a, b)
+							break
+						}
+					}
+				}
+			}
 			if r.Violation != nil {
 				fmt.Printf("   KEY %s\n   %s\n", r.Violation.Key, r.Violation.Detail)
 			}
